@@ -96,7 +96,9 @@ var props = map[string]propSpec{
 	}},
 	"C14": {Level: "exploration", Harnesses: []harnessSpec{
 		{Name: "inject", Quick: 120, Thorough: 600},
+		{Name: "injconc", Quick: 120, Thorough: 600},
 	}, Assume: []string{
+		"concurrency: pairs and triples of overlapping requests (navigations, framed requests, an image, a JSON reply) through one banner / shim / banner+shim handler, every interleaving up to the preemption bound with plain-memory access points included",
 		"the backend is a scripted transport behind a real httputil.ReverseProxy; the baseline for 'unchanged' is the same response relayed by a plain reverse proxy",
 		"an HTML document is a response whose Content-Type media type is text/html or application/xhtml+xml (case-insensitive); whether injection must happen for a given HTML reply is not demanded, only counted",
 	}},
